@@ -82,7 +82,9 @@ UUID4 = UUIDs()
 _action.time = CLOCK
 _action.uuid4 = UUID4
 
-_DESTS = _output.Logger._destinations
+# the process-wide Destinations object, reached through the public API (add_destinations is a bound
+# method of it), so that renaming eliot's private attributes does not break the harness
+_DESTS = eliot.add_destinations.__self__
 _ORIG_DEFAULT_LOGGER = _output._DEFAULT_LOGGER
 _ORIG_REGISTRY = dict(_errors._error_extraction.registry)
 
@@ -103,6 +105,28 @@ def fresh():
     CLOCK.reset()
     UUID4.reset()
     random.seed(20261002)
+
+
+def action_level(action):
+    """The task level (list of ints) of a live Action.  There is no public accessor; the attribute
+    is found by type so that a private rename in eliot does not break the harness."""
+    lv = getattr(action, "_task_level", None)
+    if lv is None:
+        for v in vars(action).values():
+            if isinstance(v, _action.TaskLevel):
+                lv = v
+                break
+    return lv.as_list()
+
+
+def action_type_of(action):
+    ident = getattr(action, "_identification", None)
+    if isinstance(ident, dict):
+        return ident.get("action_type")
+    for v in vars(action).values():
+        if isinstance(v, dict) and "action_type" in v and "task_uuid" in v:
+            return v["action_type"]
+    return getattr(action, "action_type", None)
 
 
 def run_isolated(f, *a, **kw):
